@@ -126,7 +126,7 @@ impl DefaultMetricSearcher {
         let cached_pos = self.cached_pos.lock().unwrap();
         if cache_ok {
             for (j, v) in filenames.iter().enumerate() {
-                if v != &cached_pos.metric_filename {
+                if v == &cached_pos.metric_filename {
                     i = j;
                     offset_in_idx = cached_pos.cur_offset_in_idx;
                     break;
@@ -189,10 +189,16 @@ impl DefaultMetricSearcher {
         if idx_filename == &PathBuf::from("") {
             return Ok(false);
         }
-        let mut idx_file = open_file_and_seek_to(idx_filename, cached_pos.cur_offset_in_idx)?;
+        // a cached position whose index file is gone (retention) or unreadable is just not usable
+        let mut idx_file = match open_file_and_seek_to(idx_filename, cached_pos.cur_offset_in_idx) {
+            Ok(f) => f,
+            Err(_) => return Ok(false),
+        };
 
         let mut buffer: [u8; 8] = [0; 8];
-        idx_file.read_exact(&mut buffer)?;
+        if idx_file.read_exact(&mut buffer).is_err() {
+            return Ok(false);
+        }
         let sec = u64::from_be_bytes(buffer);
 
         Ok(sec == cached_pos.cur_sec_in_idx)
